@@ -43,10 +43,6 @@ theorem split_append_sep (c : Char) (x r : Str) :
       rw [splitOnChar, hs]
       by_cases hac : a = c <;> simp [hac]
 
-def GoodNames (p : List Str) : Prop := ∀ s ∈ p, '/' ∉ s ∧ s ≠ []
-
-instance (p : List Str) : Decidable (GoodNames p) := by unfold GoodNames; exact inferInstance
-
 theorem GoodNames.tail {a : Str} {p : List Str} (h : GoodNames (a :: p)) : GoodNames p :=
   fun s hs => h s (by simp [hs])
 
